@@ -7,6 +7,7 @@ Property theorems only (helper lemmas live in Uquic/Proofs/{PN,PNGen,…}.lean).
 import Uquic.Proofs.PN
 import Uquic.Proofs.PNGen
 import Uquic.Proofs.KeyPhase
+import Uquic.Proofs.Packet
 
 namespace Uquic.Props.C05
 open Uquic.Model.PN Uquic.Model.Bytes Uquic.Proofs.PN Uquic.Proofs.PNGen
@@ -365,5 +366,100 @@ example : (run exEnv exOps).a.keyPhase = 1 ∧ (run exEnv exOps).a.numRcvdWithCu
     (run exEnv (exOps ++ [.seal 3])).a.keyPhase = 2 := by decide
 
 end KeyUpdate
+
+/-! ## 5. byte-level packet protection (model: Uquic/Model/Crypto/Packet.lean) -/
+
+section Protection
+open Uquic.Model.Packet Uquic.Proofs.Packet
+
+/-- `protect_roundtrip`: for ANY header-protection mask function, ANY IV and ANY AEAD that opens what it
+    sealed and appends a 16-byte tag; every header `hdr` (first byte carrying `pnLen-1` in its low two bits,
+    ending in the `pnLen`-byte big-endian truncation of `pn`), every `pn < 2^62`, every payload with
+    `pnLen + |payload| ≥ 4` (so that the 16-byte header-protection sample exists — the SENDER pads:
+    packet_packer.go `appendLongHeaderPacket`/`appendShortHeaderPacket` add `4 - pnLen - |payload|` bytes),
+    every receiver state `largest` within the decoding window:
+    `encryptPacket` succeeds and the peer's unpacker returns exactly the same header bytes, the same full
+    packet number and the same payload. -/
+theorem protect_roundtrip (k : Keys) (hdr payload : Bytes) (pn : Nat) (largest : Int)
+    (haead : ∀ n a m, k.aead.dec n a (k.aead.enc n a m) = some m)
+    (htag : ∀ n a m, (k.aead.enc n a m).length = m.length + 16)
+    (hlen : pnLenOf (hdr.headD 0) + 1 ≤ hdr.length)
+    (hpnbytes : hdr.drop (hdr.length - pnLenOf (hdr.headD 0)) = beBytes (pnLenOf (hdr.headD 0)) pn)
+    (hmin : 4 ≤ pnLenOf (hdr.headD 0) + payload.length)
+    (hpn : pn < 2 ^ 62) (hL : -1 ≤ largest)
+    (hwin : largest + 1 - 2 ^ (8 * pnLenOf (hdr.headD 0)) / 2 < (pn : Int) ∧
+            (pn : Int) ≤ largest + 1 + 2 ^ (8 * pnLenOf (hdr.headD 0)) / 2)
+    (hres : reservedOK k.long (hdr.headD 0) = true) :
+    ∃ pkt, protect k hdr pn payload = some pkt ∧
+      unprotect k pkt (hdr.length - pnLenOf (hdr.headD 0)) largest =
+        .ok { hdr := hdr, pn := pn, pnLen := pnLenOf (hdr.headD 0), payload := payload } := by
+  obtain ⟨pkt, h1, _, h3⟩ := protect_unprotect k hdr payload pn largest haead hlen hpnbytes
+    (by rw [htag]; omega) hpn hL hwin hres
+  exact ⟨pkt, h1, h3⟩
+
+/-- `protected_length`: a protected packet is exactly 16 bytes (the AEAD tag) longer than header + payload -/
+theorem protected_length (k : Keys) (hdr payload : Bytes) (pn : Nat) (pkt : Bytes)
+    (htag : ∀ n a m, (k.aead.enc n a m).length = m.length + 16)
+    (h : protect k hdr pn payload = some pkt) : pkt.length = hdr.length + payload.length + 16 := by
+  unfold protect at h
+  simp only at h
+  split at h
+  · cases h
+  · simp only [Option.some.injEq] at h
+    rw [← h, applyHP_length, List.length_append, htag]; omega
+
+/-- below the 4-byte bound `encryptPacket` cannot take its sample (the Go slice expression panics): the
+    bound in `protect_roundtrip` is necessary, which is why the packer pads -/
+theorem protect_needs_sample (k : Keys) (hdr payload : Bytes) (pn : Nat)
+    (htag : ∀ n a m, (k.aead.enc n a m).length = m.length + 16)
+    (hlen : pnLenOf (hdr.headD 0) ≤ hdr.length)
+    (hshort : pnLenOf (hdr.headD 0) + payload.length < 4) : protect k hdr pn payload = none := by
+  unfold protect
+  simp only
+  rw [if_pos (by rw [List.length_append, htag]; omega)]
+
+/-- `only_sealed_opens` — tamper rejection **under the ideal-AEAD assumption** `hideal`: for this key,
+    `Open` accepts `(nonce, aad, ciphertext)` only if the peer sealed `(nonce, aad, msg)` (relation `Sealed`)
+    and the ciphertext is that sealing.  Then for EVERY byte string `data`, every header offset and receiver
+    state: if the unpacker accepts `data`, then `(hdr, pn, payload)` it returns was sealed by the peer and
+    `data` is bit for bit the packet `encryptPacket` produces for it. Every bit of a packet is AAD,
+    ciphertext/tag, or a header-protected bit whose unmasked value is in the AAD. -/
+theorem only_sealed_opens (k : Keys) (Sealed : Bytes → Bytes → Bytes → Prop)
+    (hideal : ∀ n a c m, k.aead.dec n a c = some m → Sealed n a m ∧ c = k.aead.enc n a m)
+    (data : Bytes) (off : Nat) (ho : 1 ≤ off) (largest : Int) (o : Opened)
+    (h : unprotect k data off largest = .ok o) :
+    Sealed (nonce k.iv o.pn.toNat) o.hdr o.payload ∧ protect k o.hdr o.pn.toNat o.payload = some data :=
+  unprotect_is_protect k Sealed hideal data off ho largest o h
+
+/-- `tamper_rejected`: if moreover the sender never uses a nonce twice (`pn_never_reused` +
+    `nonce_injective`), then whatever is accepted as packet number `pn` is exactly the original packet:
+    same header bytes, same payload, same bytes on the wire. So any modification of a protected packet is
+    rejected (or is another genuine packet with another number) — it never yields different plaintext. -/
+theorem tamper_rejected (k : Keys) (Sealed : Bytes → Bytes → Bytes → Prop)
+    (hideal : ∀ n a c m, k.aead.dec n a c = some m → Sealed n a m ∧ c = k.aead.enc n a m)
+    (huniq : ∀ n a m a' m', Sealed n a m → Sealed n a' m' → a = a' ∧ m = m')
+    (hdr payload pkt : Bytes) (pn : Nat) (hs : Sealed (nonce k.iv pn) hdr payload)
+    (hp : protect k hdr pn payload = some pkt)
+    (data : Bytes) (off : Nat) (ho : 1 ≤ off) (largest : Int) (o : Opened)
+    (h : unprotect k data off largest = .ok o) (hsame : o.pn.toNat = pn) :
+    o.hdr = hdr ∧ o.payload = payload ∧ data = pkt := by
+  obtain ⟨h1, h2⟩ := only_sealed_opens k Sealed hideal data off ho largest o h
+  rw [hsame] at h1 h2
+  obtain ⟨e1, e2⟩ := huniq _ _ _ _ _ h1 hs
+  rw [e1, e2, hp] at h2
+  exact ⟨e1, e2, (Option.some.inj h2).symm⟩
+
+/-- the hypotheses of `protect_roundtrip` are satisfiable: a toy AEAD (identity + 16 zero bytes), a toy mask,
+    a short header `[0x41, 0x12, 0x34]` (pnLen 2, pn 0x1234) and a 2-byte payload (the minimum) -/
+def toyKeys : Keys :=
+  { aead := { enc := fun _ _ m => m ++ List.replicate 16 0,
+              dec := fun _ _ c => if c.length < 16 then none else some (c.take (c.length - 16)) },
+    iv := List.replicate 12 7, hp := fun s i => (s.getD i 0) + 0xa5, long := false }
+example : (match (protect toyKeys [0x41, 0x12, 0x34] 0x1234 [9, 8]).map (fun p => unprotect toyKeys p 1 0x1200) with
+    | some (.ok o) => decide (o = { hdr := [0x41, 0x12, 0x34], pn := 0x1234, pnLen := 2, payload := [9, 8] })
+    | _ => false) = true := by decide
+example : protect toyKeys [0x41, 0x12, 0x34] 0x1234 [9] = none := by decide
+
+end Protection
 
 end Uquic.Props.C05
